@@ -292,6 +292,7 @@ def global_state():
         'gc_debug': gc.get_debug(),
         'tb_format_exception': id(tb.format_exception),
         'tb_print_exception': id(tb.print_exception),
+        'sys_settrace_func': id(sys.settrace),
         'sys_trace': repr(sys.gettrace()),
         'sys_profile': repr(sys.getprofile()),
         'thr_trace': repr(getattr(_real_threading, '_trace_hook', None)),
@@ -337,6 +338,11 @@ def run_world(spec, argv, child_hook=None, warnings=None, probe=True,
     R.time = _TimeShim()
     if want_state:
         res.state_before = global_state()
+        import traceback as _tb
+        import warnings as _w
+        hard = (gc.get_threshold(), gc.get_debug(), _tb.format_exception,
+                _tb.print_exception, sys.settrace, list(_w.filters),
+                sys.gettrace(), sys.getprofile())
     sys.stdout, sys.stderr = out, err
     if stdin is not None:
         sys.stdin = stdin
@@ -358,6 +364,19 @@ def run_world(spec, argv, child_hook=None, warnings=None, probe=True,
         sys.stdout, sys.stderr, sys.stdin = saved_streams
         if want_state:
             res.state_after = global_state()
+            # put everything back so that a leak found in this execution
+            # cannot change the next one (each case must start clean)
+            gc.set_threshold(*hard[0])
+            gc.set_debug(hard[1])
+            _tb.format_exception, _tb.print_exception = hard[2], hard[3]
+            sys.settrace = hard[4]
+            _w.filters[:] = hard[5]
+            if hasattr(_w, '_filters_mutated'):
+                _w._filters_mutated()
+            sys.settrace(hard[6])
+            sys.setprofile(hard[7])
+            _real_threading.settrace(None)
+            _real_threading.setprofile(None)
         R.subprocess, R.threading, R.time = saved_names
         # the Logging feature adds a NullHandler per run and never removes it
         root_logger.handlers[:] = saved_handlers
